@@ -18,6 +18,8 @@ import sys
 import typing
 from typing import Any
 
+import types as _types
+
 import anyio
 from anyio.lowlevel import checkpoint
 
@@ -26,15 +28,30 @@ if sys.version_info < (3, 11):  # pragma: no cover
 
 NTYPES = 6
 # resource values: every third one is falsy (resources are arbitrary objects: empty containers, 0, …)
-TYPES = [type(f"T{i}", (), {"__init__": lambda self, v=None: setattr(self, "v", v),
-                            "__bool__": lambda self: (self.v or 0) % 3 != 0}) for i in range(NTYPES)]
-TYPE_ID = {t: i for i, t in enumerate(TYPES)}
+_CLASSES = [type(f"T{i}", (), {"__init__": lambda self, v=None: setattr(self, "v", v),
+                               "__bool__": lambda self: (self.v or 0) % 3 != 0,
+                               "__class_getitem__": classmethod(_types.GenericAlias)}) for i in range(NTYPES)]
+
+
+class _Types(list):  # type: ignore[type-arg]
+    """Resource types are written out where they are used: type 3 is a parametrized generic type (`T3[int]`), and
+    every time it is written it is a new object that is equal to, not identical with, the last one."""
+
+    def __getitem__(self, i: Any) -> Any:
+        t = list.__getitem__(self, i)
+        return _types.GenericAlias(t.__origin__, t.__args__) if isinstance(t, _types.GenericAlias) else t
+
+
+TYPES = _Types(_CLASSES[:3] + [_CLASSES[3][int]] + _CLASSES[4:])
+TYPE_ID = {**{t: i for i, t in enumerate(_CLASSES)}, **{t: i for i, t in enumerate(TYPES)}}
 # exception classes user code raises: a plain one, subclasses of two builtins the library itself
 # raises and handles (LookupError: ResourceNotFound; RuntimeError), and the builtin TimeoutError (which
 # the library also raises itself for a start-up time-out)
 EXN = [type("Exn0", (Exception,), {}), type("Exn1", (LookupError,), {}), type("Exn2", (RuntimeError,), {}),
        TimeoutError]
-BASE = [type(f"Base{i}", (BaseException,), {}) for i in range(3)]
+# (… and BaseExceptions: two of the harness's own and GeneratorExit - a block inside an asynchronous generator that
+# is closed early, `aclosing()`, `break` in an `async for`, ends with it)
+BASE = [type(f"Base{i}", (BaseException,), {}) for i in range(2)] + [GeneratorExit]
 ACTIVE_CTX: contextvars.ContextVar[int | None] = contextvars.ContextVar("verif_active_ctx", default=None)
 ACTIVE_TASK: contextvars.ContextVar[int | None] = contextvars.ContextVar("verif_active_task", default=None)
 
@@ -247,6 +264,9 @@ class Kernel:
                 kern.tdlog.append(f"td+ {spec['id']} RUNAWAY")
                 return None
             kern.tdlog.append(f"td+ {spec['id']} {arg}")
+            if ctx.closed is not True:
+                # `closed` is true from the moment teardown begins
+                kern.tdlog.append(f"CLOSED-FLAG {ctx.closed!r} inside teardown callback {spec['id']}")
             return ctx
 
         def finish(ctx: Any, outs: list[str]) -> None:
@@ -387,7 +407,7 @@ class Kernel:
             return ["conflict"]
         if isinstance(e, ResourceNotFound):
             # the exception says which resource was asked for
-            if want is not None and (getattr(e, "type", None) is not want[0] or getattr(e, "name", None) != want[1]):
+            if want is not None and (getattr(e, "type", None) != want[0] or getattr(e, "name", None) != want[1]):
                 return [f"notFound WRONG-KEY({getattr(e, 'name', None)!r})"]
             return ["notFound"]
         if isinstance(e, AsyncResourceError):
@@ -928,6 +948,9 @@ class Worker:
         try:
             if op == "add":
                 types: Any = [TYPES[i] for i in cmd["types"]]
+                if not types and isinstance(TYPES[cmd["vt"]], _types.GenericAlias) and cmd["val"] is not None:
+                    # (no object's own class is a parametrized generic: for that type the types are always given)
+                    types = [TYPES[cmd["vt"]]]
                 if cmd["badType"] and types:
                     types = types[:-1] + [5] if cmd.get("badPos") else [5] + types[1:]
                 if len(types) == 1 and cmd.get("single") and not cmd["badType"]:
